@@ -183,4 +183,116 @@ theorem C06_carried_over (env : Env) (s s' : State) (m : MigMsg) (r : Response)
   refine ⟨old.convert, hload, h5, h6, h1, h2, h3, h7, ?_⟩
   exact C06_cancel_bid env s' k old.convert hs' hload
 
+/-! ### C01 over histories that contain migrations -/
+
+/-- one event of a history: an execute request or a migration (each with the environment –
+    marker table, attributes – of that block) -/
+inductive Ev
+  | exec (env : Env) (c : Call)
+  | mig (env : Env) (m : MigMsg)
+
+/-- run a history of requests and migrations: refused ones change nothing; a migration moves no
+    funds, so the ledger only advances on execute requests -/
+def runHistM (s : State) (L : Ledger) : List Ev → State × Ledger
+  | [] => (s, L)
+  | .exec env c :: t =>
+    (match execute env s c with
+     | .ok (s', r) => runHistM s' (L.add env.contract c r) t
+     | .err _ => runHistM s L t)
+  | .mig env m :: t =>
+    (match migrate env s m with
+     | .ok (s', _) => runHistM s' L t
+     | .err _ => runHistM s L t)
+
+def GoodHistM : State → List Ev → Prop
+  | _, [] => True
+  | s, .exec env c :: t =>
+    (match execute env s c with
+     | .ok (s', _) => GoodStep env s c ∧ GoodHistM s' t
+     | .err _ => GoodHistM s t)
+  | s, .mig env m :: t =>
+    (match migrate env s m with
+     | .ok (s', _) => GoodHistM s' t
+     | .err _ => GoodHistM s t)
+
+/-- C01 over histories with migrations: along every finite history of accepted and refused
+    execute requests *and migrations* from a sane balanced state – in particular from
+    instantiation – the contract's holdings of every denomination equal exactly what its open
+    orders are owed, and the state stays sane.  (No hypothesis on the migrations at all: any
+    message, any stored version.) -/
+theorem C01_historyM (s : State) (L : Ledger) (hist : List Ev)
+    (hs : sane s = true) (hb : Balanced s L) (hg : GoodHistM s hist) :
+    sane (runHistM s L hist).1 = true ∧ Balanced (runHistM s L hist).1 (runHistM s L hist).2 := by
+  induction hist generalizing s L with
+  | nil => exact ⟨hs, hb⟩
+  | cons ev t ih =>
+    cases ev with
+    | exec env c =>
+      unfold runHistM
+      unfold GoodHistM at hg
+      cases hx : execute env s c with
+      | err e =>
+        simp only [hx] at hg ⊢
+        exact ih s L hs hb hg
+      | ok p =>
+        obtain ⟨s', r⟩ := p
+        simp only [hx] at hg ⊢
+        obtain ⟨⟨hex, hsender, hself⟩, hgt⟩ := hg
+        have hs' := Sane_step env s s' c r hs hex hx
+        refine ih s' _ hs' ?_ hgt
+        intro d
+        have := denomOK_iff.mp (C01_step env s s' c r d hs hex hsender (hself s' r hx) hx)
+        have hbd := hb d
+        simp only [Ledger.add]
+        omega
+    | mig env m =>
+      unfold runHistM
+      unfold GoodHistM at hg
+      cases hx : migrate env s m with
+      | err e =>
+        simp only [hx] at hg ⊢
+        exact ih s L hs hb hg
+      | ok p =>
+        obtain ⟨s', r⟩ := p
+        simp only [hx] at hg ⊢
+        have hs' := migrate_sane env s s' m r hs hx
+        obtain ⟨ha, hbk⟩ := migrate_book_same env s s' m r hs hx
+        refine ih s' L hs' ?_ hg
+        intro d
+        have hbd := hb d
+        have : owed s' d = owed s d := by unfold owed; rw [ha, hbk]
+        omega
+
+/-- … in particular from instantiation -/
+theorem C01_from_instantiation (env : Env) (m : InstMsg) (s : State) (r : Response) (hist : List Ev)
+    (hi : instantiate env m = .ok (s, r)) (hg : GoodHistM s hist) :
+    Balanced (runHistM s Ledger.zero hist).1 (runHistM s Ledger.zero hist).2 :=
+  (C01_historyM s Ledger.zero hist (sane_init env m s r hi) (balanced_init env m s r hi) hg).2
+
+/-- every state of such a history is `ReachM` (so C06, C08, C09, C11 hold in it as well) -/
+theorem reachM_runHistM {s : State} (L : Ledger) (hist : List Ev) (hr : ReachM s)
+    (hg : GoodHistM s hist) : ReachM (runHistM s L hist).1 := by
+  induction hist generalizing s L with
+  | nil => exact hr
+  | cons ev t ih =>
+    cases ev with
+    | exec env c =>
+      unfold runHistM
+      unfold GoodHistM at hg
+      cases hx : execute env s c with
+      | err e => simp only [hx] at hg ⊢; exact ih L hr hg
+      | ok p =>
+        obtain ⟨s', r⟩ := p
+        simp only [hx] at hg ⊢
+        exact ih _ (.step env s s' c r hr hg.1.1 hx) hg.2
+    | mig env m =>
+      unfold runHistM
+      unfold GoodHistM at hg
+      cases hx : migrate env s m with
+      | err e => simp only [hx] at hg ⊢; exact ih L hr hg
+      | ok p =>
+        obtain ⟨s', r⟩ := p
+        simp only [hx] at hg ⊢
+        exact ih L (.mig env s s' m r hr hx) hg
+
 end Ats.Proofs
